@@ -209,15 +209,23 @@ def gen_model(rng, whole_seconds: bool, big_ok: bool = True) -> dict:
     if whole_seconds:
         base_ts = rng.choice((0, 1, rng.randrange(0, max_s), rng.randrange(946684800, 2208988800), max_s)) * 1000
         tss = [base_ts] + [min(max_s * 1000, max(0, base_ts + 1000 * rng.randint(-5000, 5000))) for _ in range(n - 1)]
+        if n > 1 and rng.random() < 0.1:
+            tss[rng.randrange(1, n)] = rng.randrange(0, max_s) * 1000  # anywhere: a 6-7 byte timestamp delta
     else:
         base_ts = rng.choice((1, 999, 1001, rng.randrange(0, MAX_TS_MS), rng.randrange(946684800_000, 2208988800_000), MAX_TS_MS))
         tss = [base_ts] + [min(MAX_TS_MS, max(0, base_ts + rng.randint(-5_000_000, 5_000_000))) for _ in range(n - 1)]
+        if n > 1 and rng.random() < 0.1:
+            tss[rng.randrange(1, n)] = rng.randrange(0, MAX_TS_MS)
         if all(t % 1000 == 0 for t in tss):
             tss[-1] += 1 if tss[-1] < MAX_TS_MS else -1
             base_ts = tss[0]
     offs = [base_off]
     for _ in range(n - 1):
-        d = rng.randint(-100, 2**31 - 1) if rng.random() < 0.1 else rng.randint(-50, 1000)
+        r = rng.random()
+        if r < 0.04:
+            d = rng.choice((-(2**31), 2**31 - 1, -(2**31) + 1, 2**30, -(2**30), 63, 64, -64, -65, 8191, 8192))
+        else:
+            d = rng.randint(-100, 2**31 - 1) if r < 0.14 else rng.randint(-50, 1000)
         offs.append(min(2**63 - 1, max(-(2**63), base_off + d)))
     lod = offs[-1] - base_off if -(2**31) <= offs[-1] - base_off < 2**31 else 0
     max_ts = max(tss)
